@@ -361,3 +361,802 @@ Proof.
     rewrite lookup_empty. unfold i_step at 1. simpl. assert ((0 <? W)%nat = true) as -> by lia. simpl.
     rewrite lookup_insert. rewrite delete_insert by apply lookup_empty. by apply IH.
 Qed.
+
+(* ====================================================================================================
+   PART 2 (C06, concurrent half): invariants of the group-map machine over ALL schedules and any W. *)
+
+(* how the heap of aggrGroup objects may change in one step: objects are never removed, their key is immutable,
+   published and destroyed are monotone *)
+Definition hext (h h' : gmap nat grp) : Prop :=
+  forall g G, h !! g = Some G ->
+    exists G', h' !! g = Some G' /\ g_key G' = g_key G /\
+               (g_pub G = true -> g_pub G' = true) /\ (g_destroyed G = true -> g_destroyed G' = true).
+
+(* no object becomes live (published and not destroyed) by this heap change *)
+Definition nonewlive (h h' : gmap nat grp) : Prop :=
+  forall g G', h' !! g = Some G' -> g_pub G' = true -> g_destroyed G' = false ->
+    exists G, h !! g = Some G /\ g_pub G = true /\ g_destroyed G = false /\ g_key G = g_key G'.
+
+Lemma hext_refl h : hext h h.
+Proof. intros g G H. exists G. done. Qed.
+Lemma nonewlive_refl h : nonewlive h h.
+Proof. intros g G H1 H2 H3. exists G. done. Qed.
+
+Lemma hext_insert h g G G' :
+  h !! g = Some G -> g_key G' = g_key G -> (g_pub G = true -> g_pub G' = true) ->
+  (g_destroyed G = true -> g_destroyed G' = true) -> hext h (<[g := G']> h).
+Proof.
+  intros Hg Hk Hp Hd g0 G0 H0. destruct (decide (g0 = g)) as [->|Hne].
+  - rewrite lookup_insert. exists G'. rewrite Hg in H0. injection H0 as <-. done.
+  - rewrite lookup_insert_ne by done. exists G0. done.
+Qed.
+
+Lemma nonewlive_insert h g G G' :
+  h !! g = Some G -> g_key G' = g_key G ->
+  (g_pub G' = true -> g_destroyed G' = false -> g_pub G = true /\ g_destroyed G = false) ->
+  nonewlive h (<[g := G']> h).
+Proof.
+  intros Hg Hk Hl g0 G0 H0 Hp Hd. destruct (decide (g0 = g)) as [->|Hne].
+  - rewrite lookup_insert in H0. injection H0 as <-. exists G. destruct (Hl Hp Hd). done.
+  - rewrite lookup_insert_ne in H0 by done. exists G0. done.
+Qed.
+
+Lemma hext_alloc h g G' : h !! g = None -> hext h (<[g := G']> h).
+Proof.
+  intros Hn g0 G0 H0. destruct (decide (g0 = g)) as [->|Hne]; [congruence|].
+  rewrite lookup_insert_ne by done. exists G0. done.
+Qed.
+
+Lemma nonewlive_alloc h g G' : g_pub G' = false -> nonewlive h (<[g := G']> h).
+Proof.
+  intros Hp g0 G0 H0 Hp0 Hd0. destruct (decide (g0 = g)) as [->|Hne].
+  - rewrite lookup_insert in H0. injection H0 as <-. congruence.
+  - rewrite lookup_insert_ne in H0 by done. exists G0. done.
+Qed.
+
+Definition dead (h : gmap nat grp) (el : nat) : Prop := exists G, h !! el = Some G /\ g_destroyed G = true.
+Definition haskey (h : gmap nat grp) (g : nat) (k : gkey) : Prop := exists G, h !! g = Some G /\ g_key G = k.
+
+Lemma dead_hext h h' el : hext h h' -> dead h el -> dead h' el.
+Proof. intros He (G & H1 & H2). destruct (He _ _ H1) as (G' & ? & ? & ? & Hd). exists G'. split; [done|by apply Hd]. Qed.
+Lemma haskey_hext h h' g k : hext h h' -> haskey h g k -> haskey h' g k.
+Proof. intros He (G & H1 & H2). destruct (He _ _ H1) as (G' & ? & ? & ? & Hd). exists G'. split; [done|congruence]. Qed.
+
+(* what a worker knows at each program point (Owicki-Gries assertions): the group it found unusable is destroyed;
+   the group it created carries the key it is working on *)
+Definition wlocal (h : gmap nat grp) (k : gkey) (pc : wpc) : Prop :=
+  match pc with
+  | PLimit (Some el) | PNew (Some el) => dead h el
+  | PCas el ag _ => dead h el /\ haskey h ag k
+  | PLoadOrStore ag _ => haskey h ag k
+  | PInsertExisting _ ag _ => haskey h ag k
+  | _ => True
+  end.
+
+Definition mlocal (h : gmap nat grp) (pc : mpc) : Prop :=
+  match pc with MStop g | MDelete g => dead h g | _ => True end.
+
+Lemma wlocal_hext h h' k pc : hext h h' -> wlocal h k pc -> wlocal h' k pc.
+Proof.
+  intros He. destruct pc as [| |[el|]|[el|]| | | | | |]; simpl; try done;
+    eauto using dead_hext, haskey_hext.
+  - intros [? ?]. eauto using dead_hext, haskey_hext.
+Qed.
+Lemma mlocal_hext h h' pc : hext h h' -> mlocal h pc -> mlocal h' pc.
+Proof. intros He. destruct pc; simpl; eauto using dead_hext. Qed.
+
+Record inv1 (s : cst) : Prop := mkInv1 {
+  i_live_in_map : forall g G, c_heap s !! g = Some G -> g_pub G = true -> g_destroyed G = false ->
+                              c_map s !! g_key G = Some g;
+  i_bound : forall g G, c_heap s !! g = Some G -> (g < c_next s)%nat;
+  i_wlocal : forall w a k rest pc, c_workers s !! w = Some (WBusy a k rest pc) -> wlocal (c_heap s) k pc;
+  i_mlocal : mlocal (c_heap s) (c_maint s) }.
+
+Lemma inv1_init ups : inv1 (c_init ups).
+Proof. split; simpl; try done; intros *; rewrite lookup_empty; done. Qed.
+
+(* generic preservation: the map is unchanged, the heap changes monotonically without creating a live object *)
+Lemma inv1_same_map s s' :
+  inv1 s -> c_map s' = c_map s -> hext (c_heap s) (c_heap s') -> nonewlive (c_heap s) (c_heap s') ->
+  (forall g G, c_heap s' !! g = Some G -> (g < c_next s')%nat) ->
+  (forall w a k rest pc, c_workers s' !! w = Some (WBusy a k rest pc) ->
+     c_workers s !! w = Some (WBusy a k rest pc) \/ wlocal (c_heap s') k pc) ->
+  (c_maint s' = c_maint s \/ mlocal (c_heap s') (c_maint s')) ->
+  inv1 s'.
+Proof.
+  intros [I1 I2 I3 I4] Hm He Hn Hb Hw Hmt. split.
+  - intros g G' Hg Hp Hd. destruct (Hn _ _ Hg Hp Hd) as (G & H1 & H2 & H3 & H4). rewrite Hm, <- H4. by apply I1.
+  - done.
+  - intros w a k rest pc Hl. destruct (Hw _ _ _ _ _ Hl) as [Ho|Hnw]; [|done].
+    eapply wlocal_hext; [done|]. by eapply I3.
+  - destruct Hmt as [-> | ?]; [|done]. by eapply mlocal_hext.
+Qed.
+
+Lemma bound_insert (h : gmap nat grp) n g0 G0 G' :
+  (forall g G, h !! g = Some G -> (g < n)%nat) -> h !! g0 = Some G0 ->
+  forall g G, <[g0 := G']> h !! g = Some G -> (g < n)%nat.
+Proof.
+  intros Hb H0 g G. destruct (decide (g = g0)) as [->|Hne].
+  - intros _. by eapply Hb.
+  - rewrite lookup_insert_ne by done. apply Hb.
+Qed.
+
+Lemma wnext_local h a l a' k r pc : w_next a l = WBusy a' k r pc -> wlocal h k pc.
+Proof. destruct l; simpl; [discriminate|]. intros [= <- <- <- <-]. done. Qed.
+
+(* a worker transition that leaves the map alone *)
+Lemma inv1_wtrans s s' w st' :
+  inv1 s -> c_map s' = c_map s -> hext (c_heap s) (c_heap s') -> nonewlive (c_heap s) (c_heap s') ->
+  (forall g G, c_heap s' !! g = Some G -> (g < c_next s')%nat) ->
+  c_workers s' = <[w := st']> (c_workers s) -> c_maint s' = c_maint s ->
+  (forall a k rest pc, st' = WBusy a k rest pc -> wlocal (c_heap s') k pc) ->
+  inv1 s'.
+Proof.
+  intros I Hm He Hn Hb Hw Hmt Hl. eapply inv1_same_map; eauto.
+  intros w' a k rest pc. rewrite Hw. destruct (decide (w' = w)) as [->|Hne].
+  - rewrite lookup_insert. intros [= ->]. right. by eapply Hl.
+  - rewrite lookup_insert_ne by done. by left.
+Qed.
+
+(* storing group ag under key k (LoadOrStore that stores, or a successful CompareAndSwap): allowed when whatever
+   the map held at k is destroyed (or is ag itself) *)
+Lemma inv1_publish s w st' k ag o :
+  inv1 s -> haskey (c_heap s) ag k ->
+  (forall g, c_map s !! k = Some g -> g = ag \/ dead (c_heap s) g) ->
+  (forall h', hext (c_heap s) h' -> forall a k' rest pc, st' = WBusy a k' rest pc -> wlocal h' k' pc) ->
+  inv1 (set_worker w st' (add_log o (publish k ag s))).
+Proof.
+  intros [I1 I2 I3 I4] (G & HG & Hk) Hold Hl. unfold publish. rewrite HG.
+  assert (He : hext (c_heap s) (<[ag := with_pub G]> (c_heap s))) by (eapply hext_insert; eauto).
+  split; simpl.
+  - intros g0 G0 H0 Hp Hd. destruct (decide (g0 = ag)) as [->|Hne].
+    + rewrite lookup_insert in H0. injection H0 as <-. simpl. rewrite Hk. apply lookup_insert.
+    + rewrite lookup_insert_ne in H0 by done. pose proof (I1 _ _ H0 Hp Hd) as Hin.
+      destruct (decide (g_key G0 = k)) as [Ek|Ek].
+      * exfalso. rewrite Ek in Hin. destruct (Hold _ Hin) as [?|(Gd & Hd1 & Hd2)]; [done|]. congruence.
+      * by rewrite lookup_insert_ne.
+  - eapply bound_insert; eauto.
+  - intros w' a k' rest pc. destruct (decide (w' = w)) as [->|Hne].
+    + rewrite lookup_insert. intros [= ->]. by eapply Hl.
+    + rewrite lookup_insert_ne by done. intros Hw. eapply wlocal_hext; [done|]. by eapply I3.
+  - by eapply mlocal_hext.
+Qed.
+
+Lemma inv1_w_step rt limit w s : inv1 s -> inv1 (w_step rt limit w s).
+Proof.
+  intros I. pose proof I as [I1 I2 I3 I4]. unfold w_step.
+  assert (Hrecv : inv1 match c_q s with [] => s | a :: q => set_worker w (w_next a (rt (u_fp a))) (set_q q s) end).
+  { destruct (c_q s) as [|a q]; [done|].
+    eapply (inv1_wtrans s _ w); simpl; eauto using hext_refl, nonewlive_refl. intros *. apply wnext_local. }
+  destruct (c_workers s !! w) as [[|a k rest pc]|] eqn:Ew; simpl; [done| |done].
+  pose proof (I3 _ _ _ _ _ Ew) as L.
+  destruct pc as [|el|o|o|el ag r|el ag|ag r|ag|el ag r|ag]; simpl in L.
+  - (* PLoad *)
+    destruct (c_map s !! k) as [el|]; eapply (inv1_wtrans s _ w); simpl; eauto using hext_refl, nonewlive_refl;
+      intros ? ? ? ? [= <- <- <- <-]; done.
+  - (* PInsertLoaded *)
+    destruct (c_heap s !! el) as [G|] eqn:EG; [|done]. unfold try_insert.
+    destruct (g_destroyed G) eqn:Ed.
+    + eapply (inv1_wtrans s _ w); simpl; eauto using hext_refl, nonewlive_refl.
+      intros ? ? ? ? [= <- <- <- <-]. simpl. by exists G.
+    + eapply (inv1_wtrans s _ w); simpl; eauto using wnext_local.
+      * eapply hext_insert; eauto.
+      * eapply nonewlive_insert; eauto.
+      * eapply bound_insert; eauto.
+  - (* PLimit *)
+    destruct ((0 <? limit) && (limit <=? c_num s)).
+    + eapply (inv1_wtrans s _ w); simpl; eauto using hext_refl, nonewlive_refl, wnext_local.
+    + eapply (inv1_wtrans s _ w); simpl; eauto using hext_refl, nonewlive_refl.
+      intros ? ? ? ? [= <- <- <- <-]. done.
+  - (* PNew *)
+    assert (Hfresh : c_heap s !! c_next s = None).
+    { destruct (c_heap s !! c_next s) as [G|] eqn:E; [|done]. specialize (I2 _ _ E). lia. }
+    eapply (inv1_wtrans s _ w); simpl; eauto.
+    + by apply hext_alloc.
+    + by apply nonewlive_alloc.
+    + intros g G. destruct (decide (g = c_next s)) as [->|Hne]; [lia|].
+      rewrite lookup_insert_ne by done. intros H. specialize (I2 _ _ H). lia.
+    + intros ? ? ? ? [= <- <- <- <-].
+      assert (Hk : haskey (<[c_next s := mkGrp k {[u_fp a := a]} false false false FNotStarted]> (c_heap s)) (c_next s) k).
+      { eexists. rewrite lookup_insert. done. }
+      destruct o as [el|]; simpl; [|done]. split; [|done]. eapply dead_hext; [|done]. by apply hext_alloc.
+  - (* PCas *)
+    destruct L as [Ld Lk]. case_bool_decide as Hc.
+    + eapply inv1_publish; eauto.
+      * intros g Hg. right. rewrite Hc in Hg. injection Hg as <-. done.
+      * intros h' He ? ? ? ? [= <- <- <- <-]. done.
+    + destruct (maxretry <? S r)%nat.
+      * eapply (inv1_wtrans s _ w); simpl; eauto using hext_refl, nonewlive_refl, wnext_local.
+      * eapply (inv1_wtrans s _ w); simpl; eauto using hext_refl, nonewlive_refl.
+        intros ? ? ? ? [= <- <- <- <-]. done.
+  - (* PCancelOld *)
+    destruct (c_heap s !! el) as [G|] eqn:EG.
+    + eapply (inv1_wtrans s _ w); simpl; eauto.
+      * eapply hext_insert; eauto.
+      * eapply nonewlive_insert; eauto.
+      * eapply bound_insert; eauto.
+      * intros ? ? ? ? [= <- <- <- <-]. done.
+    + eapply (inv1_wtrans s _ w); simpl; eauto using hext_refl, nonewlive_refl.
+      intros ? ? ? ? [= <- <- <- <-]. done.
+  - (* PLoadOrStore *)
+    destruct (c_map s !! k) as [el|] eqn:Em.
+    + eapply (inv1_wtrans s _ w); simpl; eauto using hext_refl, nonewlive_refl.
+      intros ? ? ? ? [= <- <- <- <-]. done.
+    + eapply inv1_publish; eauto.
+      * intros g Hg. congruence.
+      * intros h' He ? ? ? ? [= <- <- <- <-]. done.
+  - (* PCount *)
+    eapply (inv1_wtrans s _ w); simpl; eauto using hext_refl, nonewlive_refl.
+    intros ? ? ? ? [= <- <- <- <-]. done.
+  - (* PInsertExisting *)
+    destruct (c_heap s !! el) as [G|] eqn:EG; [|done]. unfold try_insert.
+    destruct (g_destroyed G) eqn:Ed.
+    + destruct (maxretry <? S r)%nat.
+      * eapply (inv1_wtrans s _ w); simpl; eauto using hext_refl, nonewlive_refl, wnext_local.
+      * eapply (inv1_wtrans s _ w); simpl; eauto using hext_refl, nonewlive_refl.
+        intros ? ? ? ? [= <- <- <- <-]. simpl. split; [by exists G|done].
+    + eapply (inv1_wtrans s _ w); simpl; eauto using wnext_local.
+      * eapply hext_insert; eauto.
+      * eapply nonewlive_insert; eauto.
+      * eapply bound_insert; eauto.
+  - (* PRun *)
+    destruct (c_heap s !! ag) as [G|] eqn:EG.
+    + destruct (g_fpc G) eqn:Ef;
+        try (eapply (inv1_wtrans s _ w); simpl; eauto using hext_refl, nonewlive_refl, wnext_local; fail).
+      eapply (inv1_wtrans s _ w); simpl; eauto using wnext_local.
+      * eapply hext_insert; eauto.
+      * eapply nonewlive_insert; eauto.
+      * eapply bound_insert; eauto.
+    + eapply (inv1_wtrans s _ w); simpl; eauto using hext_refl, nonewlive_refl, wnext_local.
+Qed.
+
+Ltac samemap := eapply inv1_same_map; simpl; eauto using hext_refl, nonewlive_refl, bound_insert; try (by right); try (by left).
+
+Lemma inv1_m_step k s : inv1 s -> inv1 (m_step k s).
+Proof.
+  intros I. pose proof I as [I1 I2 I3 I4]. unfold m_step.
+  destruct (c_maint s) as [|g|g|g|g] eqn:Em; simpl in I4.
+  - destruct (c_map s !! k) as [g|]; [|done]. samemap.
+  - destruct (c_heap s !! g) as [G|] eqn:EG; [|samemap].
+    destruct (g_destroyed G) eqn:Ed; samemap. right. by exists G.
+  - destruct (c_heap s !! g) as [G|] eqn:EG; [|samemap].
+    assert (He : hext (c_heap s) (<[g := with_cancelled G]> (c_heap s))) by (eapply hext_insert; eauto).
+    assert (Hn : nonewlive (c_heap s) (<[g := with_cancelled G]> (c_heap s))) by (eapply nonewlive_insert; eauto).
+    destruct (g_fpc G); samemap; right; simpl; rewrite ?Em; simpl; eapply dead_hext; eauto.
+  - destruct (c_heap s !! g) as [G|] eqn:EG; [|samemap].
+    case_bool_decide as Hc; [|samemap].
+    destruct I4 as (Gd & Hd1 & Hd2). rewrite EG in Hd1. injection Hd1 as <-.
+    split; simpl; [|done| |done].
+    + intros g0 G0 H0 Hp Hd. pose proof (I1 _ _ H0 Hp Hd) as Hin.
+      destruct (decide (g_key G0 = g_key G)) as [Ek|Ek].
+      * exfalso. rewrite Ek, Hc in Hin. injection Hin as <-. congruence.
+      * by rewrite lookup_delete_ne.
+    + intros *. apply I3.
+  - samemap.
+Qed.
+
+Lemma inv1_f_step g now ok s : inv1 s -> inv1 (f_step g now ok s).
+Proof.
+  intros I. pose proof I as [I1 I2 I3 I4]. unfold f_step.
+  destruct (c_heap s !! g) as [G|] eqn:EG; [|done].
+  destruct (g_fpc G) as [| |res|] eqn:Ef; [done| | |done].
+  - destruct (g_cancelled G).
+    + eapply inv1_same_map; simpl; eauto using bound_insert.
+      * eapply hext_insert; eauto.
+      * eapply nonewlive_insert; eauto.
+    + case_bool_decide; [done|].
+      eapply inv1_same_map; simpl; eauto using bound_insert.
+      * eapply hext_insert; eauto.
+      * eapply nonewlive_insert; eauto.
+  - destruct ok.
+    + eapply inv1_same_map; simpl; eauto using bound_insert.
+      * eapply hext_insert; eauto. simpl. intros ->. done.
+      * eapply nonewlive_insert; eauto. simpl. intros Hp Hd. apply orb_false_iff in Hd as [Hd _]. done.
+    + eapply inv1_same_map; simpl; eauto using bound_insert.
+      * eapply hext_insert; eauto.
+      * eapply nonewlive_insert; eauto.
+Qed.
+
+Lemma inv1_step W rt limit s t : inv1 s -> inv1 (c_step W rt limit s t).
+Proof.
+  intros I. destruct t as [w|k|g now ok]; simpl.
+  - destruct (w <? W)%nat; [by apply inv1_w_step|done].
+  - by apply inv1_m_step.
+  - by apply inv1_f_step.
+Qed.
+
+Lemma inv1_exec W rt limit sched : forall s, inv1 s -> inv1 (c_exec W rt limit sched s).
+Proof. induction sched as [|t r IH]; intros s I; simpl; [done|]. apply IH. by apply inv1_step. Qed.
+
+(* never_split: in every reachable state, two live (published, not destroyed) aggregation groups with the same
+   (route, group-label fingerprint) are the same object, and that object is the one the map holds *)
+Lemma never_split_lemma W rt limit ups sched g1 g2 G1 G2 :
+  let s := c_exec W rt limit sched (c_init ups) in
+  c_heap s !! g1 = Some G1 -> c_heap s !! g2 = Some G2 ->
+  live G1 = true -> live G2 = true -> g_key G1 = g_key G2 ->
+  g1 = g2 /\ c_map s !! g_key G1 = Some g1.
+Proof.
+  intros s H1 H2 L1 L2 Hk. destruct (inv1_exec W rt limit sched _ (inv1_init ups)) as [I1 _ _ _].
+  unfold live in *. apply andb_true_iff in L1 as [P1 D1], L2 as [P2 D2]. apply negb_true_iff in D1, D2.
+  pose proof (I1 _ _ H1 P1 D1) as M1. pose proof (I1 _ _ H2 P2 D2) as M2. fold s in M1, M2.
+  rewrite Hk in M1. split; [congruence|]. by rewrite Hk.
+Qed.
+
+(* alerts with equal group labels under one route are never in two live groups *)
+Lemma alerts_never_split_lemma W rt limit ups sched g1 g2 G1 G2 f1 f2 a1 a2 :
+  let s := c_exec W rt limit sched (c_init ups) in
+  c_heap s !! g1 = Some G1 -> c_heap s !! g2 = Some G2 ->
+  live G1 = true -> live G2 = true -> g_key G1 = g_key G2 ->
+  g_alerts G1 !! f1 = Some a1 -> g_alerts G2 !! f2 = Some a2 ->
+  g1 = g2.
+Proof. intros s H1 H2 L1 L2 Hk _ _. by destruct (never_split_lemma W rt limit ups sched g1 g2 G1 G2 H1 H2 L1 L2 Hk). Qed.
+
+(* ---------- second invariant: what insert_never_lost needs ---------- *)
+
+(* heap changes as seen from unpublished (still private) objects: their alerts are untouched *)
+Definition hext2 (h h' : gmap nat grp) : Prop :=
+  forall g G, h !! g = Some G ->
+    exists G', h' !! g = Some G' /\ g_key G' = g_key G /\ (g_pub G = true -> g_pub G' = true) /\
+               (g_pub G = false -> g_pub G' = false /\ g_alerts G' = g_alerts G).
+
+(* every unpublished object of h' was unpublished with the same destroyed / run state in h, or is brand new *)
+Definition unpub_ok (h h' : gmap nat grp) : Prop :=
+  forall g G', h' !! g = Some G' -> g_pub G' = false ->
+    (exists G, h !! g = Some G /\ g_pub G = false /\ g_destroyed G' = g_destroyed G /\ g_fpc G' = g_fpc G)
+    \/ (g_destroyed G' = false /\ g_fpc G' = FNotStarted).
+
+Lemma hext2_refl h : hext2 h h.
+Proof. intros g G H. exists G. done. Qed.
+Lemma unpub_ok_refl h : unpub_ok h h.
+Proof. intros g G H Hp. left. exists G. done. Qed.
+
+(* an update of a published object *)
+Lemma hext2_insert_pub h g G G' :
+  h !! g = Some G -> g_pub G = true -> g_key G' = g_key G -> g_pub G' = true -> hext2 h (<[g := G']> h).
+Proof.
+  intros Hg Hp Hk Hp' g0 G0 H0. destruct (decide (g0 = g)) as [->|Hne].
+  - rewrite lookup_insert. exists G'. rewrite Hg in H0. injection H0 as <-. split; [done|]. split; [done|]. split; [done|]. intros ?; congruence.
+  - rewrite lookup_insert_ne by done. exists G0. done.
+Qed.
+Lemma unpub_ok_insert_pub h g G' : g_pub G' = true -> unpub_ok h (<[g := G']> h).
+Proof.
+  intros Hp g0 G0 H0 Hp0. destruct (decide (g0 = g)) as [->|Hne].
+  - rewrite lookup_insert in H0. injection H0 as <-. congruence.
+  - rewrite lookup_insert_ne in H0 by done. left. exists G0. done.
+Qed.
+(* an update that only sets the cancelled flag *)
+Lemma hext2_insert_cancel h g G : h !! g = Some G -> hext2 h (<[g := with_cancelled G]> h).
+Proof.
+  intros Hg g0 G0 H0. destruct (decide (g0 = g)) as [->|Hne].
+  - rewrite lookup_insert. exists (with_cancelled G). rewrite Hg in H0. injection H0 as <-. done.
+  - rewrite lookup_insert_ne by done. exists G0. done.
+Qed.
+Lemma unpub_ok_insert_cancel h g G : h !! g = Some G -> unpub_ok h (<[g := with_cancelled G]> h).
+Proof.
+  intros Hg g0 G0 H0 Hp0. left. destruct (decide (g0 = g)) as [->|Hne].
+  - rewrite lookup_insert in H0. injection H0 as <-. exists G. done.
+  - rewrite lookup_insert_ne in H0 by done. exists G0. done.
+Qed.
+Lemma hext2_alloc h g G' : h !! g = None -> hext2 h (<[g := G']> h).
+Proof.
+  intros Hn g0 G0 H0. destruct (decide (g0 = g)) as [->|Hne]; [congruence|].
+  rewrite lookup_insert_ne by done. exists G0. done.
+Qed.
+Lemma unpub_ok_alloc h g G' : g_destroyed G' = false -> g_fpc G' = FNotStarted -> unpub_ok h (<[g := G']> h).
+Proof.
+  intros Hd Hf g0 G0 H0 Hp0. destruct (decide (g0 = g)) as [->|Hne].
+  - rewrite lookup_insert in H0. injection H0 as <-. by right.
+  - rewrite lookup_insert_ne in H0 by done. left. exists G0. done.
+Qed.
+
+Definition refpub (h : gmap nat grp) (g : nat) (k : gkey) : Prop :=
+  exists G, h !! g = Some G /\ g_key G = k /\ g_pub G = true.
+Definition priv (h : gmap nat grp) (ag : nat) (k : gkey) (a : upd) : Prop :=
+  exists G, h !! ag = Some G /\ g_key G = k /\ g_pub G = false /\ g_alerts G !! u_fp a = Some a.
+
+Lemma refpub_hext2 h h' g k : hext2 h h' -> refpub h g k -> refpub h' g k.
+Proof.
+  intros He (G & H1 & H2 & H3). destruct (He _ _ H1) as (G' & ? & ? & Hp & _). exists G'.
+  split; [done|]. split; [congruence|by apply Hp].
+Qed.
+Lemma priv_hext2 h h' g k a : hext2 h h' -> priv h g k a -> priv h' g k a.
+Proof.
+  intros He (G & H1 & H2 & H3 & H4). destruct (He _ _ H1) as (G' & ? & ? & _ & Hu). destruct (Hu H3) as [? Ha].
+  exists G'. split; [done|]. split; [congruence|]. split; [done|]. by rewrite Ha.
+Qed.
+
+Definition wlocal2 (h : gmap nat grp) (a : upd) (k : gkey) (pc : wpc) : Prop :=
+  match pc with
+  | PInsertLoaded el => refpub h el k
+  | PCas _ ag _ | PLoadOrStore ag _ => priv h ag k a
+  | PInsertExisting el ag _ => refpub h el k /\ priv h ag k a
+  | PCancelOld _ ag | PCount ag | PRun ag => refpub h ag k
+  | _ => True
+  end.
+
+(* the private group a worker is about to publish *)
+Definition privreg (pc : wpc) : option nat :=
+  match pc with PCas _ ag _ | PLoadOrStore ag _ | PInsertExisting _ ag _ => Some ag | _ => None end.
+
+Lemma wlocal2_hext2 h h' a k pc : hext2 h h' -> wlocal2 h a k pc -> wlocal2 h' a k pc.
+Proof.
+  intros He. destruct pc; simpl; try done; eauto using refpub_hext2, priv_hext2.
+  intros [? ?]. eauto using refpub_hext2, priv_hext2.
+Qed.
+
+Lemma privreg_priv h a k pc g : wlocal2 h a k pc -> privreg pc = Some g -> priv h g k a.
+Proof. destruct pc; simpl; try discriminate; intros H [= <-]; try done. by destruct H. Qed.
+
+Record inv2 (s : cst) : Prop := mkInv2 {
+  j_map_pub : forall k g, c_map s !! k = Some g -> refpub (c_heap s) g k;
+  j_unpub : forall g G, c_heap s !! g = Some G -> g_pub G = false -> g_destroyed G = false /\ g_fpc G = FNotStarted;
+  j_wlocal : forall w a k rest pc, c_workers s !! w = Some (WBusy a k rest pc) -> wlocal2 (c_heap s) a k pc;
+  j_uniq : forall w1 w2 a1 k1 r1 pc1 a2 k2 r2 pc2 g, w1 <> w2 ->
+             c_workers s !! w1 = Some (WBusy a1 k1 r1 pc1) -> c_workers s !! w2 = Some (WBusy a2 k2 r2 pc2) ->
+             privreg pc1 = Some g -> privreg pc2 = Some g -> False }.
+
+Lemma inv2_init ups : inv2 (c_init ups).
+Proof. split; simpl; intros *; rewrite ?lookup_empty; done. Qed.
+
+Lemma unpub_from_ok h h' :
+  (forall g G, h !! g = Some G -> g_pub G = false -> g_destroyed G = false /\ g_fpc G = FNotStarted) ->
+  unpub_ok h h' ->
+  (forall g G, h' !! g = Some G -> g_pub G = false -> g_destroyed G = false /\ g_fpc G = FNotStarted).
+Proof.
+  intros H Hu g G' Hg Hp. destruct (Hu _ _ Hg Hp) as [(G & H1 & H2 & H3 & H4)|?]; [|done].
+  rewrite H3, H4. by eapply H.
+Qed.
+
+(* generic preservation when the map does not change and only worker w changes its state;
+   the new private register of w, if any, is its old one or a fresh object *)
+Lemma inv2_wtrans s s' w st' :
+  inv1 s -> inv2 s -> c_map s' = c_map s -> hext2 (c_heap s) (c_heap s') -> unpub_ok (c_heap s) (c_heap s') ->
+  c_workers s' = <[w := st']> (c_workers s) ->
+  (forall a k rest pc, st' = WBusy a k rest pc -> wlocal2 (c_heap s') a k pc) ->
+  (forall a k rest pc g, st' = WBusy a k rest pc -> privreg pc = Some g ->
+     g = c_next s \/ exists a0 k0 r0 pc0, c_workers s !! w = Some (WBusy a0 k0 r0 pc0) /\ privreg pc0 = Some g) ->
+  inv2 s'.
+Proof.
+  intros [_ I2 _ _] [J1 J2 J3 J4] Hm He Hu Hw Hl Hp. split.
+  - intros k g. rewrite Hm. intros H. eapply refpub_hext2; eauto.
+  - eapply unpub_from_ok; eauto.
+  - intros w' a k rest pc. rewrite Hw. destruct (decide (w' = w)) as [->|Hne].
+    + rewrite lookup_insert. intros [= ->]. by eapply Hl.
+    + rewrite lookup_insert_ne by done. intros H. eapply wlocal2_hext2; eauto.
+  - assert (Hfresh : forall w' a k r pc, c_workers s !! w' = Some (WBusy a k r pc) -> privreg pc <> Some (c_next s)).
+    { intros w' a k r pc Hl' Hpr. destruct (privreg_priv _ _ _ _ _ (J3 _ _ _ _ _ Hl') Hpr) as (G & HG & _).
+      specialize (I2 _ _ HG). lia. }
+    intros w1 w2 a1 k1 r1 pc1 a2 k2 r2 pc2 g Hne. rewrite Hw.
+    destruct (decide (w1 = w)) as [->|H1]; destruct (decide (w2 = w)) as [->|H2]; try done.
+    + rewrite lookup_insert, lookup_insert_ne by done. intros [= ->] Hl2 P1 P2.
+      destruct (Hp _ _ _ _ _ eq_refl P1) as [->|(a0 & k0 & r0 & pc0 & Hl0 & P0)].
+      * by eapply Hfresh.
+      * eapply (J4 w w2); eauto.
+    + rewrite lookup_insert, lookup_insert_ne by done. intros Hl1 [= ->] P1 P2.
+      destruct (Hp _ _ _ _ _ eq_refl P2) as [->|(a0 & k0 & r0 & pc0 & Hl0 & P0)].
+      * by eapply Hfresh.
+      * eapply (J4 w1 w); eauto.
+    + rewrite !lookup_insert_ne by done. eauto.
+Qed.
+
+(* preservation when no worker changes (maintenance / flush steps) *)
+Lemma inv2_same_workers s s' :
+  inv2 s -> (forall k g, c_map s' !! k = Some g -> c_map s !! k = Some g) ->
+  hext2 (c_heap s) (c_heap s') -> unpub_ok (c_heap s) (c_heap s') -> c_workers s' = c_workers s -> inv2 s'.
+Proof.
+  intros [J1 J2 J3 J4] Hm He Hu Hw. split.
+  - intros k g H. eapply refpub_hext2; eauto.
+  - eapply unpub_from_ok; eauto.
+  - intros w a k rest pc. rewrite Hw. intros H. eapply wlocal2_hext2; eauto.
+  - intros *. rewrite Hw. eauto.
+Qed.
+
+(* publication of the worker's own private group *)
+Lemma inv2_publish s w a k rest pc pc' ag o :
+  inv2 s -> c_workers s !! w = Some (WBusy a k rest pc) -> privreg pc = Some ag ->
+  privreg pc' = None -> (forall h', refpub h' ag k -> wlocal2 h' a k pc') ->
+  inv2 (set_worker w (WBusy a k rest pc') (add_log o (publish k ag s))).
+Proof.
+  intros [J1 J2 J3 J4] Hl Hpr Hpr' Hloc.
+  destruct (privreg_priv _ _ _ _ _ (J3 _ _ _ _ _ Hl) Hpr) as (G & HG & Hk & Hpub & Ha).
+  unfold publish. rewrite HG.
+  (* every other reference in the state is to an object different from ag, or is a published reference *)
+  assert (Hrp : forall g k0, refpub (c_heap s) g k0 -> refpub (<[ag := with_pub G]> (c_heap s)) g k0).
+  { intros g k0 (G0 & H0 & H1 & H2). destruct (decide (g = ag)) as [->|Hne].
+    - exists (with_pub G). rewrite lookup_insert. rewrite HG in H0. injection H0 as <-. done.
+    - exists G0. by rewrite lookup_insert_ne. }
+  assert (Hpv : forall g k0 a0, g <> ag -> priv (c_heap s) g k0 a0 -> priv (<[ag := with_pub G]> (c_heap s)) g k0 a0).
+  { intros g k0 a0 Hne (G0 & H0 & H1). exists G0. by rewrite lookup_insert_ne. }
+  split; simpl.
+  - intros k0 g. destruct (decide (k0 = k)) as [->|Hne].
+    + rewrite lookup_insert. intros [= <-]. exists (with_pub G). rewrite lookup_insert. done.
+    + rewrite lookup_insert_ne by done. intros H. by apply Hrp, J1.
+  - eapply unpub_from_ok; [exact J2|]. by apply unpub_ok_insert_pub.
+  - intros w' a' k' rest' pc0. destruct (decide (w' = w)) as [->|Hne].
+    + rewrite lookup_insert. intros [= <- <- <- <-]. apply Hloc. exists (with_pub G). rewrite lookup_insert. done.
+    + rewrite lookup_insert_ne by done. intros H. pose proof (J3 _ _ _ _ _ H) as L.
+      assert (Hag : forall g, privreg pc0 = Some g -> g <> ag).
+      { intros g Hg ->. eapply (J4 w' w); eauto. }
+      destruct pc0; simpl in *; try done;
+        try (by apply Hrp);
+        try (apply Hpv; [by apply Hag|done]);
+        try (destruct L as [L1 L2]; split; [by apply Hrp|apply Hpv; [by apply Hag|done]]).
+  - intros w1 w2 a1 k1 r1 pc1 a2 k2 r2 pc2 g Hne.
+    destruct (decide (w1 = w)) as [->|H1]; destruct (decide (w2 = w)) as [->|H2]; try done.
+    + rewrite lookup_insert. intros [= <- <- <- <-]. congruence.
+    + rewrite lookup_insert_ne, lookup_insert by done. intros _ [= <- <- <- <-]. congruence.
+    + rewrite !lookup_insert_ne by done. eauto.
+Qed.
+
+Lemma wnext_local2 h a l a' k r pc : w_next a l = WBusy a' k r pc -> wlocal2 h a' k pc /\ privreg pc = None.
+Proof. destruct l; simpl; [discriminate|]. intros [= <- <- <- <-]. done. Qed.
+
+Ltac w2same I J w := eapply (inv2_wtrans _ _ w _ I J); simpl;
+  [reflexivity | eauto using hext2_refl | eauto using unpub_ok_refl | reflexivity | | ].
+
+Lemma inv2_w_step rt limit w s : inv1 s -> inv2 s -> inv2 (w_step rt limit w s).
+Proof.
+  intros I J. pose proof I as [I1 I2 I3 I4]. pose proof J as [J1 J2 J3 J4]. unfold w_step.
+  assert (Hfin : forall a rest s', c_map s' = c_map s -> hext2 (c_heap s) (c_heap s') ->
+            unpub_ok (c_heap s) (c_heap s') -> c_workers s' = <[w := w_next a rest]> (c_workers s) -> inv2 s').
+  { intros a rest s' Hm He Hu Hw. eapply (inv2_wtrans _ _ w _ I J); eauto.
+    - intros a' k' r' pc' E. by destruct (wnext_local2 (c_heap s') _ _ _ _ _ _ E).
+    - intros a' k' r' pc' g E. destruct (wnext_local2 (c_heap s') _ _ _ _ _ _ E) as [_ ->]. discriminate. }
+  assert (Hrecv : inv2 match c_q s with [] => s | a :: q => set_worker w (w_next a (rt (u_fp a))) (set_q q s) end).
+  { destruct (c_q s) as [|a q]; [done|]. eapply Hfin; simpl; eauto using hext2_refl, unpub_ok_refl. }
+  destruct (c_workers s !! w) as [[|a k rest pc]|] eqn:Ew; simpl; [done| |done].
+  pose proof (J3 _ _ _ _ _ Ew) as L. pose proof (I3 _ _ _ _ _ Ew) as L1.
+  assert (Hown : forall g, privreg pc = Some g ->
+            g = c_next s \/ exists a0 k0 r0 pc0, c_workers s !! w = Some (WBusy a0 k0 r0 pc0) /\ privreg pc0 = Some g).
+  { intros g Hg. right. eauto 8. }
+  destruct pc as [|el|o|o|el ag r|el ag|ag r|ag|el ag r|ag]; simpl in L, L1.
+  - (* PLoad *)
+    destruct (c_map s !! k) as [el|] eqn:Em; w2same I J w.
+    + intros ? ? ? ? [= <- <- <- <-]. simpl. by apply J1.
+    + intros ? ? ? ? ? [= <- <- <- <-]. discriminate.
+    + intros ? ? ? ? [= <- <- <- <-]. done.
+    + intros ? ? ? ? ? [= <- <- <- <-]. discriminate.
+  - (* PInsertLoaded *)
+    destruct L as (G0 & HG0 & Hk0 & Hp0).
+    destruct (c_heap s !! el) as [G|] eqn:EG; [|done]. injection HG0 as <-. unfold try_insert.
+    destruct (g_destroyed G) eqn:Ed.
+    + w2same I J w.
+      * intros ? ? ? ? [= <- <- <- <-]. done.
+      * intros ? ? ? ? ? [= <- <- <- <-]. discriminate.
+    + eapply Hfin; simpl; eauto.
+      * eapply hext2_insert_pub; eauto.
+      * by apply unpub_ok_insert_pub.
+  - (* PLimit *)
+    destruct ((0 <? limit) && (limit <=? c_num s)).
+    + eapply Hfin; simpl; eauto using hext2_refl, unpub_ok_refl.
+    + w2same I J w.
+      * intros ? ? ? ? [= <- <- <- <-]. done.
+      * intros ? ? ? ? ? [= <- <- <- <-]. discriminate.
+  - (* PNew *)
+    assert (Hfresh : c_heap s !! c_next s = None).
+    { destruct (c_heap s !! c_next s) as [G|] eqn:E; [|done]. specialize (I2 _ _ E). lia. }
+    eapply (inv2_wtrans _ _ w _ I J); simpl; [reflexivity| | |reflexivity| | ].
+    + by apply hext2_alloc.
+    + by apply unpub_ok_alloc.
+    + intros ? ? ? ? [= <- <- <- <-].
+      assert (priv (<[c_next s := mkGrp k {[u_fp a := a]} false false false FNotStarted]> (c_heap s)) (c_next s) k a).
+      { eexists. rewrite lookup_insert. split; [done|]. simpl. split; [done|]. split; [done|]. apply lookup_singleton. }
+      destruct o; done.
+    + intros ? ? ? ? g [= <- <- <- <-]. destruct o; simpl; intros [= <-]; by left.
+  - (* PCas *)
+    case_bool_decide as Hc.
+    + eapply inv2_publish; eauto.
+    + destruct (maxretry <? S r)%nat.
+      * eapply Hfin; simpl; eauto using hext2_refl, unpub_ok_refl.
+      * w2same I J w.
+        -- intros ? ? ? ? [= <- <- <- <-]. done.
+        -- intros ? ? ? ? ? [= <- <- <- <-]. simpl. intros [= <-]. by apply Hown.
+  - (* PCancelOld *)
+    destruct (c_heap s !! el) as [G|] eqn:EG.
+    + eapply (inv2_wtrans _ _ w _ I J); simpl; [reflexivity| | |reflexivity| | ].
+      * by apply hext2_insert_cancel.
+      * by apply unpub_ok_insert_cancel.
+      * intros ? ? ? ? [= <- <- <- <-]. simpl. eapply refpub_hext2; [|done]. by apply hext2_insert_cancel.
+      * intros ? ? ? ? ? [= <- <- <- <-]. discriminate.
+    + w2same I J w.
+      * intros ? ? ? ? [= <- <- <- <-]. done.
+      * intros ? ? ? ? ? [= <- <- <- <-]. discriminate.
+  - (* PLoadOrStore *)
+    destruct (c_map s !! k) as [el|] eqn:Em.
+    + w2same I J w.
+      * intros ? ? ? ? [= <- <- <- <-]. simpl. split; [by apply J1|done].
+      * intros ? ? ? ? ? [= <- <- <- <-]. simpl. intros [= <-]. by apply Hown.
+    + eapply inv2_publish; eauto.
+  - (* PCount *)
+    w2same I J w.
+    + intros ? ? ? ? [= <- <- <- <-]. done.
+    + intros ? ? ? ? ? [= <- <- <- <-]. discriminate.
+  - (* PInsertExisting *)
+    destruct L as [(G0 & HG0 & Hk0 & Hp0) Lp].
+    destruct (c_heap s !! el) as [G|] eqn:EG; [|done]. injection HG0 as <-. unfold try_insert.
+    destruct (g_destroyed G) eqn:Ed.
+    + destruct (maxretry <? S r)%nat.
+      * eapply Hfin; simpl; eauto using hext2_refl, unpub_ok_refl.
+      * w2same I J w.
+        -- intros ? ? ? ? [= <- <- <- <-]. done.
+        -- intros ? ? ? ? ? [= <- <- <- <-]. simpl. intros [= <-]. by apply Hown.
+    + eapply Hfin; simpl; eauto.
+      * eapply hext2_insert_pub; eauto.
+      * by apply unpub_ok_insert_pub.
+  - (* PRun *)
+    destruct L as (G0 & HG0 & Hk0 & Hp0). rewrite HG0.
+    destruct (g_fpc G0) eqn:Ef;
+      try (eapply Hfin; simpl; eauto using hext2_refl, unpub_ok_refl; fail).
+    eapply Hfin; simpl; eauto.
+    + eapply hext2_insert_pub; eauto.
+    + by apply unpub_ok_insert_pub.
+Qed.
+
+Lemma inv2_m_step k s : inv1 s -> inv2 s -> inv2 (m_step k s).
+Proof.
+  intros I J. unfold m_step.
+  destruct (c_maint s) as [|g|g|g|g] eqn:Em.
+  - destruct (c_map s !! k); [|done]. eapply inv2_same_workers; simpl; eauto using hext2_refl, unpub_ok_refl.
+  - destruct (c_heap s !! g) as [G|] eqn:EG; [destruct (g_destroyed G)|];
+      eapply inv2_same_workers; simpl; eauto using hext2_refl, unpub_ok_refl.
+  - destruct (c_heap s !! g) as [G|] eqn:EG.
+    + destruct (g_fpc G); eapply inv2_same_workers; simpl;
+        eauto using hext2_insert_cancel, unpub_ok_insert_cancel.
+    + eapply inv2_same_workers; simpl; eauto using hext2_refl, unpub_ok_refl.
+  - destruct (c_heap s !! g) as [G|] eqn:EG.
+    + case_bool_decide.
+      * eapply inv2_same_workers; simpl; eauto using hext2_refl, unpub_ok_refl.
+        intros k0 g0 H0. apply lookup_delete_Some in H0 as [_ H0]. done.
+      * eapply inv2_same_workers; simpl; eauto using hext2_refl, unpub_ok_refl.
+    + eapply inv2_same_workers; simpl; eauto using hext2_refl, unpub_ok_refl.
+  - eapply inv2_same_workers; simpl; eauto using hext2_refl, unpub_ok_refl.
+Qed.
+
+Lemma inv2_f_step g now ok s : inv1 s -> inv2 s -> inv2 (f_step g now ok s).
+Proof.
+  intros I J. pose proof J as [J1 J2 J3 J4]. unfold f_step.
+  destruct (c_heap s !! g) as [G|] eqn:EG; [|done].
+  assert (Hpub : g_fpc G <> FNotStarted -> g_pub G = true).
+  { intros Hf. destruct (g_pub G) eqn:Ep; [done|]. destruct (J2 _ _ EG Ep). done. }
+  destruct (g_fpc G) as [| |res|] eqn:Ef; [done| | |done].
+  - destruct (g_cancelled G); [|case_bool_decide; [done|]];
+      (eapply inv2_same_workers; simpl; eauto;
+       [eapply hext2_insert_pub; eauto; apply Hpub; congruence
+       |apply unpub_ok_insert_pub; simpl; apply Hpub; congruence]).
+  - destruct ok;
+      (eapply inv2_same_workers; simpl; eauto;
+       [eapply hext2_insert_pub; eauto; simpl; apply Hpub; congruence
+       |apply unpub_ok_insert_pub; simpl; apply Hpub; congruence]).
+Qed.
+
+Lemma inv12_step W rt limit s t : inv1 s /\ inv2 s -> inv1 (c_step W rt limit s t) /\ inv2 (c_step W rt limit s t).
+Proof.
+  intros [I J]. split; [by apply inv1_step|]. destruct t as [w|k|g now ok]; simpl.
+  - destruct (w <? W)%nat; [by apply inv2_w_step|done].
+  - by apply inv2_m_step.
+  - by apply inv2_f_step.
+Qed.
+
+Lemma inv12_exec W rt limit sched : forall s, inv1 s /\ inv2 s ->
+  inv1 (c_exec W rt limit sched s) /\ inv2 (c_exec W rt limit sched s).
+Proof. induction sched as [|t r IH]; intros s I; simpl; [done|]. apply IH. by apply inv12_step. Qed.
+
+(* ---------- insert_never_lost ---------- *)
+
+(* what a logged outcome guarantees about the state right after the step that logged it *)
+Definition event_ok (s : cst) (e : outcome) : Prop :=
+  match e with
+  | ODone a k g =>
+      c_map s !! k = Some g /\
+      exists G, c_heap s !! g = Some G /\ g_key G = k /\ g_pub G = true /\ g_destroyed G = false /\
+                exists a', g_alerts G !! u_fp a = Some a' /\ u_uat a <= u_uat a'
+  | OLimited _ _ | OGaveUp _ _ => True
+  end.
+
+Lemma pick_ge o a : u_uat a <= u_uat (pick KeepNewer o a).
+Proof. destruct o as [o|]; simpl; [|lia]. destruct (u_uat a <? u_uat o) eqn:E; lia. Qed.
+
+Lemma insert_event_ok s s' a k el G :
+  inv1 s -> c_heap s !! el = Some G -> g_key G = k -> g_pub G = true -> g_destroyed G = false ->
+  c_map s' = c_map s ->
+  c_heap s' !! el = Some (with_alerts G (store_set KeepNewer (g_alerts G) a)) ->
+  event_ok s' (ODone a k el).
+Proof.
+  intros [I1 _ _ _] HG Hk Hp Hd Hm Hh. simpl. rewrite Hm. split; [rewrite <- Hk; by apply I1|].
+  eexists. split; [exact Hh|]. simpl. repeat (split; [done|]).
+  exists (pick KeepNewer (g_alerts G !! u_fp a) a). split; [apply lookup_insert|apply pick_ge].
+Qed.
+
+Lemma publish_event_ok s a k ag w st :
+  inv2 s -> priv (c_heap s) ag k a ->
+  event_ok (set_worker w st (add_log (ODone a k ag) (publish k ag s))) (ODone a k ag).
+Proof.
+  intros [_ J2 _ _] (G & HG & Hk & Hp & Ha). unfold publish. rewrite HG. simpl.
+  rewrite !lookup_insert. split; [done|]. eexists. split; [done|]. simpl.
+  destruct (J2 _ _ HG Hp) as [Hd _]. repeat (split; [done|]). exists a. split; [done|lia].
+Qed.
+
+Lemma publish_proj k ag s :
+  c_log (publish k ag s) = c_log s /\ c_limited (publish k ag s) = c_limited s /\ c_givenup (publish k ag s) = c_givenup s.
+Proof. unfold publish. destruct (c_heap s !! ag); done. Qed.
+
+(* a worker step appends at most one outcome, and a logged outcome is honest *)
+Lemma w_step_log rt limit w s :
+  inv1 s -> inv2 s ->
+  c_log (w_step rt limit w s) = c_log s \/
+  exists e, c_log (w_step rt limit w s) = e :: c_log s /\ event_ok (w_step rt limit w s) e /\
+            c_limited (w_step rt limit w s) = (match e with OLimited _ _ => S (c_limited s) | _ => c_limited s end) /\
+            c_givenup (w_step rt limit w s) = (match e with OGaveUp _ _ => S (c_givenup s) | _ => c_givenup s end).
+Proof.
+  intros I J. pose proof J as [J1 J2 J3 J4]. unfold w_step.
+  destruct (c_workers s !! w) as [[|a k rest pc]|] eqn:Ew; simpl;
+    [destruct (c_q s); by left| |destruct (c_q s); by left].
+  pose proof (J3 _ _ _ _ _ Ew) as L.
+  destruct pc as [|el|o|o|el ag r|el ag|ag r|ag|el ag r|ag]; simpl in L.
+  - destruct (c_map s !! k); by left.
+  - destruct L as (G0 & HG0 & Hk0 & Hp0). rewrite HG0. unfold try_insert.
+    destruct (g_destroyed G0) eqn:Ed; [by left|]. right. eexists. split; [done|]. split; [|done].
+    eapply (insert_event_ok s); eauto. simpl. apply lookup_insert.
+  - destruct ((0 <? limit) && (limit <=? c_num s)); [|by left]. right. eexists. split; [done|]. done.
+  - by left.
+  - case_bool_decide.
+    + right. exists (ODone a k ag). destruct (publish_proj k ag s) as (Hp1 & Hp2 & Hp3).
+      split; [simpl; by rewrite Hp1|]. split; [by apply publish_event_ok|]. simpl. by rewrite Hp2, Hp3.
+    + destruct (maxretry <? S r)%nat; [|by left]. right. eexists. split; [done|]. done.
+  - destruct (c_heap s !! el); by left.
+  - destruct (c_map s !! k) eqn:Em; [by left|].
+    right. exists (ODone a k ag). destruct (publish_proj k ag s) as (Hp1 & Hp2 & Hp3).
+    split; [simpl; by rewrite Hp1|]. split; [by apply publish_event_ok|]. simpl. by rewrite Hp2, Hp3.
+  - by left.
+  - destruct L as [(G0 & HG0 & Hk0 & Hp0) _]. rewrite HG0. unfold try_insert.
+    destruct (g_destroyed G0) eqn:Ed.
+    + destruct (maxretry <? S r)%nat; [|by left]. right. eexists. split; [done|]. done.
+    + right. eexists. split; [done|]. split; [|done].
+      eapply (insert_event_ok s); eauto. simpl. apply lookup_insert.
+  - destruct (c_heap s !! ag) as [G|]; [destruct (g_fpc G)|]; by left.
+Qed.
+
+Lemma m_step_log k s : c_log (m_step k s) = c_log s.
+Proof.
+  unfold m_step. destruct (c_maint s); simpl;
+    repeat match goal with
+           | |- context [match ?x with _ => _ end] => destruct x; simpl
+           | |- context [if ?x then _ else _] => destruct x; simpl
+           end; done.
+Qed.
+Lemma f_step_log g now ok s : c_log (f_step g now ok s) = c_log s.
+Proof.
+  unfold f_step.
+  repeat match goal with
+         | |- context [match ?x with _ => _ end] => destruct x; simpl
+         | |- context [if ?x then _ else _] => destruct x; simpl
+         end; done.
+Qed.
+
+(* insert_never_lost: in every execution, whenever a groupAlert call reports that it placed the alert, then at
+   that very step the target group is the one the map holds under the alert's (route, group fingerprint), it is
+   published and not destroyed, and it holds a version of the alert at least as new as the one inserted;
+   every other way a call can end is one of the two counted paths *)
+Lemma insert_never_lost_lemma W rt limit ups sched t :
+  let s := c_exec W rt limit sched (c_init ups) in
+  let s' := c_step W rt limit s t in
+  c_log s' = c_log s \/
+  exists e, c_log s' = e :: c_log s /\ event_ok s' e /\
+            c_limited s' = (match e with OLimited _ _ => S (c_limited s) | _ => c_limited s end) /\
+            c_givenup s' = (match e with OGaveUp _ _ => S (c_givenup s) | _ => c_givenup s end).
+Proof.
+  intros s s'. destruct (inv12_exec W rt limit sched (c_init ups)) as [I J]; [split; [apply inv1_init|apply inv2_init]|].
+  subst s'. destruct t as [w|k|g now ok]; simpl.
+  - destruct (w <? W)%nat; [by apply w_step_log|by left].
+  - left. apply m_step_log.
+  - left. apply f_step_log.
+Qed.
+
+(* the map only ever holds published groups under their own key *)
+Lemma map_holds_own_key_lemma W rt limit ups sched k g :
+  let s := c_exec W rt limit sched (c_init ups) in
+  c_map s !! k = Some g -> exists G, c_heap s !! g = Some G /\ g_key G = k /\ g_pub G = true.
+Proof.
+  intros s. destruct (inv12_exec W rt limit sched (c_init ups)) as [_ [J1 _ _ _]]; [split; [apply inv1_init|apply inv2_init]|].
+  apply J1.
+Qed.
